@@ -96,7 +96,7 @@ def numpy_to_blackbird(A, var_name):
         script = ["complex array {}[{}, {}] =".format(var_name, *A.shape)]
         for row in A:
             row_str = "    " + ", ".join(
-                ["{0}{1}{2}j".format(n.real, "+-"[int(n.imag < 0)], abs(n.imag)) for n in row]
+                ["{0}{1}{2}j".format(n.real, "+-"[int(np.signbit(n.imag))], abs(n.imag)) for n in row]
             )
             script.append(row_str)
 
@@ -143,7 +143,7 @@ def _format_value(v, tdm=False):
         return '"{}"'.format(v)
 
     if isinstance(v, complex):
-        return "{}{}{}j".format(v.real, "+-"[int(v.imag < 0)], np.abs(v.imag))
+        return "{}{}{}j".format(v.real, "+-"[int(np.signbit(v.imag))], np.abs(v.imag))
 
     # a register transform is written as its expression (registers are not parameters)
     expr = getattr(v, "expr", v)
